@@ -110,7 +110,11 @@ def check_C05(report, tier, seed):
     SC.suite_client_inbound(report, tier, seed, "C05")
     import suites_drivers as SD
     SD.suite_real_inbound(report, tier, seed, "C05")
-def check_C06(report, tier, seed): engine_check("C06", report, tier, seed)
+def check_C06(report, tier, seed):
+    import suites_engine as S
+    engine_check("C06", report, tier, seed)
+    # once round the identifier space: the wrap from 65535 to 1, with identifiers still held
+    S.packet_id_wrap_family(report, "C06")
 def check_C07(report, tier, seed):
     import suites_engine as S
     engine_check("C07", report, tier, seed, profile=lambda i: "connects" if i % 3 == 1 else "default")
